@@ -84,7 +84,7 @@ FILL = [("for", "I", n(0), n(20), None), ("let", ("arr", "X", [("var", "I")]), (
 R = ("var", "R")
 RS = ("var", "R$")
 
-NUM_CARRIERS = ["assign", "assign_elem", "sub_rhs", "sub_lhs", "if_noelse", "if_else", "if_elif_cond", "if_arm", "for_start",
+NUM_CARRIERS = ["sub_both", "sub_both2", "assign", "assign_elem", "sub_rhs", "sub_lhs", "if_noelse", "if_else", "if_elif_cond", "if_arm", "for_start",
                 "for_limit", "for_step", "print_item", "print_at_pos", "on_sel", "dev_cls", "dev_hline", "dev_sound",
                 "dev_hcircle", "dev_poke", "read_sub", "input_sub", "loop_body", "jump_target", "two_statements", "width"]
 STR_CARRIERS = ["assign_s", "assign_elem_s", "print_item_s", "print_at_item_s", "if_s_noelse", "if_s_else", "dev_hprint",
@@ -99,6 +99,11 @@ def carrier(name, e):
         return one([("let", R, e, False)])
     if name == "assign_elem":
         return one([("let", ("arr", "Y", [n(2)]), e, False)])
+    if name == "sub_both":
+        return one([("let", ("arr", "Y", [("bin", "AND", F("BUTTON", n(0)), n(7))]), e, False),
+                    ("let", ("arr", "Y", [F("JOYSTK", n(1))]), ("bin", "+", e, n(1)), False)])
+    if name == "sub_both2":
+        return one([("let", ("arr", "Z", [F("BUTTON", n(0)), ("bin", "AND", e, n(3))]), F("INT", ("bin", "/", e, n(2))), False)])
     if name == "sub_rhs":
         return one([("let", R, ("arr", "X", [("bin", "AND", e, n(7))]), False)])
     if name == "sub_lhs":
@@ -280,7 +285,7 @@ def run_case(case):
     pool = NUM_EXPRS if kind == "num" else STR_EXPRS
     ename, e = pool[case["expr"]]
     cname = case["carrier"]
-    prog = [(5, [("dim", [("X", [20], ["20"]), ("Y", [20], ["20"]), ("S$", [5], ["5"])])]), (10, SETUP), (20, FILL)] + carrier(cname, e)
+    prog = [(5, [("dim", [("X", [20], ["20"]), ("Y", [20], ["20"]), ("S$", [5], ["5"]), ("Z", [20, 5], ["20", "5"])])]), (10, SETUP), (20, FILL)] + carrier(cname, e)
     text = render(prog)
     obs["key"] = "%s|%s" % (ename, cname)
     obs["sets"]["carriers"] = [cname]
